@@ -55,3 +55,22 @@ func specLargestUnit(d time.Duration) int64 {
 //@ ensures [C20.rolling-floor] rollingAvgPeriodDuration(result) <= d
 //@ ensures [C20.rolling-exact] int64(d)%specLargestUnit(d) == 0 && int64(d)/specLargestUnit(d) <= 63 ==> rollingAvgPeriodDuration(result) == d
 //@ ensures [C20.rolling-unit] result>>6 == ite(d < 60*time.Second, uint8(0), ite(d < 60*time.Minute, uint8(1), ite(d < 24*time.Hour, uint8(2), uint8(3))))
+
+// ---- sensor_info.go: paged enumeration of Get DCMI Sensor Info (DCMI v1.5 6.5.2)
+//
+// Every request asks for as many instances as fit (Instance 0), starting at the
+// instance after the ones already collected; the loop ends when the BMC's total
+// is reached, a page is empty or 255 record IDs have been collected, and it
+// always terminates: every iteration that continues has added at least one ID.
+
+//@ func getEntityInstances
+//@ props C16 C13
+//@ requires [paging.args] !isnil(ctx) && !isnil(s) && !isnil(cmd)
+//@ invariant 0 [C16.page-bounds] totalInstances <= 255 && cmd.Req.Instance == 0
+//@ decreases 0 ite(len(recordIDs) < 256, 256 - len(recordIDs), 0)
+//@ invariant 1 [C16.page-copy] len(recordIDs) == atentry(len(recordIDs)) + rangeindex + 1
+//@ at Session).SendCommand assert [C16.page-ctx] arg[context.Context](1) == ctx
+//@ at Session).SendCommand assert [C16.page-all] cmd.Req.Instance == 0
+//@ at Session).SendCommand assert [C16.page-start] cmd.Req.InstanceStart == uint8(len(recordIDs)+1)
+//@ at Session).SendCommand assert [C16.page-room] len(recordIDs) < 255
+//@ ensures [C16.no-partial] result1 != nil ==> isnil(result0)
